@@ -407,9 +407,27 @@ def _enc(s):
     return s.encode("utf-8")
 
 
+def hash_projection():
+    """the five bucket hashes of a `cal-date` / `cal-basic` answer are compared up to a renaming: each is replaced by the
+       ordinal of its first appearance (per kind, per side). The model's and the implementation's answers then agree exactly
+       when both partition the dates seen so far into the same buckets; the hash NUMBERS themselves are nobody's business
+       (the property only says: same bucket exactly when same period — which the oracle checks on the raw numbers)."""
+    seen = [dict() for _ in range(5)]
+    def f(req, line):
+        if not (req.startswith("cal-date ") or req.startswith("cal-basic ")) or not line.startswith("ok "):
+            return line
+        toks = line.split(" ")
+        if len(toks) < 6:
+            return line
+        for k in range(5):
+            h = toks[len(toks) - 5 + k]
+            toks[len(toks) - 5 + k] = "#%d" % seen[k].setdefault(h, len(seen[k])) if h not in ("crash", "-") else h
+        return " ".join(toks)
+    return f
+
 def suites():
     return [
-        Suite("dates", gen_dates, oracle=oracle_date, exhaustive=lambda t: t != "quick",
+        Suite("dates", gen_dates, oracle=oracle_date, exhaustive=lambda t: t != "quick", project=hash_projection,
               rule="every date of the chosen years (quick: 60 boundary/century/leap/random years; thorough: all 3,652,425 dates of 0000..9999) "
                    "plus day 0 / day n+1 / month 0 / month 13 neighbours; non-trivial = a valid date"),
         Suite("plus", gen_plus, oracle=oracle_plus, exhaustive=lambda t: False,
